@@ -54,7 +54,9 @@ use vharness::{Args, Report, Rng, catch, fixtures, fnv1a, run_workers, shrink};
 
 const ASSETS: [&str; 3] = ["btc", "eth", "usdt"];
 // (name, base, quote)
-const INSTRUMENTS: [(&str, &str, &str); 3] = [("BTCUSDT", "btc", "usdt"), ("ETHUSDT", "eth", "usdt"), ("ETHBTC", "eth", "btc")];
+// the fourth is a DERIVATIVE (perpetual, contract size 10) on the same underlying as the first: the statement's
+// arithmetic (price x quantity plus fees in the quote asset, quantity plus fees in the base asset) is the same
+const INSTRUMENTS: [(&str, &str, &str); 4] = [("BTCUSDT", "btc", "usdt"), ("ETHUSDT", "eth", "usdt"), ("ETHBTC", "eth", "btc"), ("BTCUSDT-PERP", "btc", "usdt")];
 
 #[derive(Debug, Clone, Serialize, Deserialize, PartialEq)]
 struct Req {
@@ -91,16 +93,20 @@ fn mock_instruments() -> FnvHashMap<InstrumentNameExchange, Instrument<ExchangeI
     INSTRUMENTS
         .iter()
         .map(|(name, base, quote)| {
-            (
-                InstrumentNameExchange::from(*name),
-                Instrument::spot(
-                    ExchangeId::Mock,
-                    format!("mock-{}", name.to_lowercase()),
-                    *name,
-                    Underlying::new(AssetNameExchange::from(*base), AssetNameExchange::from(*quote)),
-                    None,
-                ),
-            )
+            let mut instrument = Instrument::spot(
+                ExchangeId::Mock,
+                format!("mock-{}", name.to_lowercase()),
+                *name,
+                Underlying::new(AssetNameExchange::from(*base), AssetNameExchange::from(*quote)),
+                None,
+            );
+            if name.ends_with("-PERP") {
+                instrument.kind = barter_instrument::instrument::kind::InstrumentKind::Perpetual(barter_instrument::instrument::kind::perpetual::PerpetualContract {
+                    contract_size: Decimal::from(10),
+                    settlement_asset: AssetNameExchange::from(*quote),
+                });
+            }
+            (InstrumentNameExchange::from(*name), instrument)
         })
         .collect()
 }
@@ -263,6 +269,17 @@ fn run_direct(case: &Case) -> Result<Outcome, V> {
     Ok(out)
 }
 
+fn absorb(ev: UnindexedAccountEvent, got: &mut Vec<(String, String)>, trade_times: &mut Vec<(String, chrono::DateTime<chrono::Utc>)>) {
+    match ev.kind {
+        AccountEventKind::BalanceSnapshot(b) => got.push(("balance".into(), format!("{}={}", b.0.asset.name(), b.0.balance.total))),
+        AccountEventKind::Trade(t) => {
+            trade_times.push((t.id.0.to_string(), t.time_exchange));
+            got.push(("trade".into(), format!("{}:{}:{}", "cid?", t.order_id.0, t.fees.fees.normalize())))
+        }
+        other => got.push(("other".into(), format!("{other:?}"))),
+    }
+}
+
 /// Driver 2: through the client and the running exchange task, under virtual time.
 fn run_client(case: &Case) -> Result<Outcome, V> {
     let rt = tokio::runtime::Builder::new_current_thread().enable_time().start_paused(true).build().expect("runtime");
@@ -308,7 +325,18 @@ fn run_client(case: &Case) -> Result<Outcome, V> {
             }
         }
         let mut in_burst = false;
+        let mut got: Vec<(String, String)> = vec![];
+        let mut trade_times: Vec<(String, chrono::DateTime<chrono::Utc>)> = vec![];
         for (n, r) in case.reqs.iter().enumerate() {
+            // a listener reads its stream as it goes (the account broadcast holds 1024 items): take what is there
+            // (every 32 requests = 64 notifications: tokio's cooperative budget ends a task's run of ready polls
+            // after 128, so a longer drain would stop early and fall behind by one item per round)
+            if n % 32 == 0 {
+                while let Some(Some(ev)) = futures::FutureExt::now_or_never(stream.next()) {
+                    out.steps += 1;
+                    absorb(ev, &mut got, &mut trade_times);
+                }
+            }
             if burst_of[n] != 0 {
                 if burst_of[n] != n + 1 {
                     continue; // handled with the head of its burst
@@ -433,20 +461,11 @@ fn run_client(case: &Case) -> Result<Outcome, V> {
             }
         }
         // drain the account stream: everything arrives within `wait` of virtual time after the last response
-        let mut got: Vec<(String, String)> = vec![];
-        let mut trade_times: Vec<(String, chrono::DateTime<chrono::Utc>)> = vec![];
         loop {
             match tokio::time::timeout(wait, stream.next()).await {
                 Ok(Some(ev)) => {
                     out.steps += 1;
-                    match ev.kind {
-                        AccountEventKind::BalanceSnapshot(b) => got.push(("balance".into(), format!("{}={}", b.0.asset.name(), b.0.balance.total))),
-                        AccountEventKind::Trade(t) => {
-                            trade_times.push((t.id.0.to_string(), t.time_exchange));
-                            got.push(("trade".into(), format!("{}:{}:{}", "cid?", t.order_id.0, t.fees.fees.normalize())))
-                        }
-                        other => got.push(("other".into(), format!("{other:?}"))),
-                    }
+                    absorb(ev, &mut got, &mut trade_times);
                 }
                 Ok(None) | Err(_) => break,
             }
@@ -695,6 +714,22 @@ fn main() {
             let case = gen_case(rng);
             execute(&case, i % 4 == 3, report);
         }
+        // MARATHON: a long session - more than ten thousand accepted orders through the client and the running
+        // exchange; every fill is still announced and still returned by the trade queries
+        if w == 0 && args.tier != "miri" && args.tier != "tsan" {
+            let lengths: &[usize] = if args.tier == "thorough" { &[10_300, 20_500, 66_000] } else { &[10_300] };
+            for len in lengths {
+                let reqs: Vec<Req> = (0..*len)
+                    .map(|k| {
+                        let (name, _, _) = INSTRUMENTS[k % INSTRUMENTS.len()];
+                        Req { instr: name.to_string(), buy: k % 3 != 0, p: "10".into(), q: "0.001".into(), market: true }
+                    })
+                    .collect();
+                let case = Case { balances: vec!["100000000".into(); ASSETS.len()], fee: "0.001".into(), latency_ms: (*len % 2) as u64, reqs, clock_steps_back: false, impatient: false, burst: false };
+                execute(&case, true, report);
+                report.cover("marathon:more_than_ten_thousand_accepted_orders");
+            }
+        }
     });
     if args.tier != "miri" {
         for c in [
@@ -714,6 +749,7 @@ fn main() {
             "request_abandoned_before_the_exchange_processed_it",
             "burst_of_orders_sent_before_any_response_was_awaited",
             "burst_with_several_accepted_orders_spending_one_asset",
+            "marathon:more_than_ten_thousand_accepted_orders",
         ] {
             report.require(c);
         }
